@@ -1,5 +1,136 @@
-/- Line-protocol handler for C07 (stub until the model exists). -/
-import NoulithModel.Common
+/- Line-protocol handler for C07.
+
+Request:  `bin <op> <A> <B>` | `un <op> <A>` where an object is
+  `i:<int>` | `q:<num>/<den>` | `f:<16 hex digits>` | `c:<16 hex>:<16 hex>` | `v[obj,obj,…]` | `x`
+  (`x` = anything that is neither a number nor a vector).
+Response: `<impl>\t<spec>`.
+
+Float arithmetic is abstract in the model (`FloatOps`), so the driver instantiates it with the FREE
+term algebra: a float / complex value is the text of the expression that computes it, e.g.
+`fop:add(f:3ff0000000000000,conv:int(5))`.  The Rust harness evaluates these terms with Rust's own
+`f64` / `Complex64` / `BigInt::to_f64` operations and compares the result with what the interpreter
+returned, which checks dispatch and conversion, not IEEE arithmetic.  Exact results (ints,
+rationals) are printed as canonical values.  In the Spec column the conversions to float are not
+symbolic: they are the correctly rounded bit patterns (`F64.ofRatRNE`). -/
+import NoulithModel.Spec.TowerSpec
+
 namespace Noulith.DriverC07
-def handle (_args : List String) : String := "bad-op"
+open Noulith
+
+def parseHex (s : String) : Option Nat :=
+  s.toList.foldl (fun acc c => match acc, hexDigitVal c with
+    | some a, some d => some (16 * a + d)
+    | _, _ => none) (some 0)
+
+def renderRat (q : Rat) : String := s!"{q.num}/{q.den}"
+
+def app1 (f a : String) : String := f ++ "(" ++ a ++ ")"
+def app2 (f a b : String) : String := f ++ "(" ++ a ++ "," ++ b ++ ")"
+
+/-- the free (symbolic) float structure; only literals have a known value -/
+def sym : FloatOps String String where
+  view s :=
+    if s.startsWith "f:" ∧ s.length = 18 then
+      match parseHex (s.drop 2).toString with
+      | some b => F64.viewBits b
+      | none => .nan
+    else .nan
+  ofInt i := app1 "conv:int" (toString i)
+  ofRat q := app1 "conv:rat" (renderRat q)
+  posInf := "f:7ff0000000000000"
+  add := app2 "fop:add"
+  sub := app2 "fop:sub"
+  mul := app2 "fop:mul"
+  div := app2 "fop:div"
+  rem := app2 "fop:rem"
+  divEuclid := app2 "fop:diveuclid"
+  remEuclid := app2 "fop:remeuclid"
+  neg := app1 "fop:neg"
+  cOfF := app1 "cof"
+  cre s :=
+    if s.startsWith "c:" ∧ s.length = 35 then "f:" ++ ((s.drop 2).take 16).toString else app1 "re" s
+  cim s :=
+    if s.startsWith "c:" ∧ s.length = 35 then "f:" ++ (s.drop 19).toString else app1 "im" s
+  cadd := app2 "cop:add"
+  csub := app2 "cop:sub"
+  cmul := app2 "cop:mul"
+  cdiv := app2 "cop:div"
+  crem := app2 "cop:rem"
+  cfloorParts := app1 "cop:floorparts"
+  cdivF := app2 "cop:divf"
+  fdivC := app2 "cop:fdiv"
+  cneg := app1 "cop:neg"
+  powfPd a b := .float (app2 "pd:powf" a b)       -- sort decided by the evaluator (float or complex)
+  powifPd a b := .float (app2 "pd:powif" a (toString b))
+  cpowf := app2 "cop:powf"
+  cpowif a b := app2 "cop:powif" a (toString b)
+  cpowc := app2 "cop:powc"
+
+def hex16 (n : Nat) : String :=
+  let ds := Nat.toDigits 16 n
+  String.ofList (List.replicate (16 - ds.length) '0' ++ ds)
+
+/-- the structure the SPEC column is evaluated with: the same free term algebra, but the
+conversions int → float and rational → float are the correctly rounded ones (`F64.ofRatRNE`),
+printed as float literals -/
+def symSpec : FloatOps String String :=
+  { sym with
+    ofInt := fun i => "f:" ++ hex16 (F64.ofRatRNE (i : Rat))
+    ofRat := fun q => "f:" ++ hex16 (F64.ofRatRNE q) }
+
+abbrev SNum := NNum String String
+abbrev SObj := VObj String String
+
+def parseNum (s : String) : Option SNum :=
+  if s.startsWith "i:" then (s.drop 2).toString.toInt?.map .int
+  else if s.startsWith "q:" then
+    match (s.drop 2).toString.splitOn "/" with
+    | [n, d] =>
+      match n.toInt?, d.toNat? with
+      | some n, some d => if d = 0 then none else some (.rat (mkRat n d))
+      | _, _ => none
+    | _ => none
+  else if s.startsWith "f:" then (if s.length = 18 then some (.float s) else none)
+  else if s.startsWith "c:" then (if s.length = 35 then some (.complex s) else none)
+  else none
+
+def parseNums : List String → Option (List SNum)
+  | [] => some []
+  | t :: ts =>
+    match parseNum t, parseNums ts with
+    | some n, some ns => some (n :: ns)
+    | _, _ => none
+
+def parseObj (s : String) : Option SObj :=
+  if s = "x" then some .other
+  else if s = "v[]" then some (.vec [])
+  else if s.startsWith "v[" ∧ s.endsWith "]" then
+    (parseNums (((s.drop 2).dropEnd 1).toString.splitOn ",")).map .vec
+  else (parseNum s).map .num
+
+def renderNum : SNum → String
+  | .int i => toString i
+  | .rat r => renderRat r
+  | .float f => f
+  | .complex z => z
+
+def renderObj : SObj → String
+  | .num n => renderNum n
+  | .vec xs => "v[" ++ joinWith "," (xs.map renderNum) ++ "]"
+  | .other => "other"
+
+def handle (args : List String) : String :=
+  match args with
+  | ["bin", op, a, b] =>
+    match parseObj a, parseObj b with
+    | some x, some y =>
+      (Vectorize.binop sym op x y).render renderObj ++ "\t" ++ (TowerSpec.vbinop symSpec op x y).render renderObj
+    | _, _ => "bad-op"
+  | ["un", op, a] =>
+    match parseObj a with
+    | some x =>
+      (Vectorize.unop sym op x).render renderObj ++ "\t" ++ (TowerSpec.vunop symSpec op x).render renderObj
+    | _ => "bad-op"
+  | _ => "bad-op"
+
 end Noulith.DriverC07
